@@ -616,8 +616,7 @@ def nsxSendRequestSkel : List Item := [
   (0, "ret", "ReadAll(…)")]
 
 def panHttpPrefixGetLogSkel : List Item := [
-  (0, "assign", "p1 = recv.urlPrefix + p1"),
-  (0, "send", "httpGet p1"), (0, "assign", "r1, err := <reply>"), (0, "ret", "r1, err")]
+  (0, "send", "httpGet recv.urlPrefix + p1"), (0, "assign", "r1, err := <reply>"), (0, "ret", "r1, err")]
 
 def panHttpGetSkel : List Item := [
   (0, "send", "Get p1"), (0, "assign", "r1, err := <reply>"), (0, "guard", "err != nil"), (1, "ret", "nil, err"),
